@@ -12,6 +12,14 @@ CLAIMED["C16"] = ("One inductive step of the real open-addressing table (Put, Pu
   "Trusted: engine, solver, invariant R being reachable-state sound (a spurious pre-state would give a false alarm, not a false pass); primaryIndex abstracted to an uninterpreted function of the key.", "DESIGN.md §5 C16")
 CLAIMED["C20"] = ("The real embedIPv4 / extractIPv4 / validatePrefix are executed symbolically for all six legal prefix lengths, every prefix byte value, all 2^32 IPv4 addresses and all 2^128 IPv6 addresses: octets land at the RFC 6052 positions (table written independently in the harness), octet 8 and the suffix are zero, extract inverts embed, extract accepts exactly the conformant addresses, illegal lengths are refused.",
   "Trusted: engine, solver, the RFC 6052 position table in the harness. Dispatch (WriteMsg) and gating kernels are added as they are built.", "DESIGN.md §5 C20")
+CLAIMED["C03"] = ("Wire/presentation key identity: for every uncompressed wire name within the bound the bytes hashed by KeyWire/KeyWireWithPrefix are proven identical to those hashed by Key/KeyString/KeyWithPrefix for the presentation name that the DNS library's own UnpackDomainName (executed symbolically) decodes from the same octets, for all 256 octet values; WireNameEqualsPresentation accepts a stored name exactly when it equals the decoded name up to ASCII case. xxhash is an uninterpreted function of the recorded preimage, so equality of keys is shown through equality of preimages.",
+  "Trusted: engine, solver; dns.escapeByte replaced by its arithmetic form after the solver proves the two equal for all 256 octets (VerifC03_EscapeLemma). Collision-verification of stored entries and lookup routes are added as built; interleavings are outside the claim.", "DESIGN.md §5 C03")
+CLAIMED["C13"] = ("Backoff envelope and one record step of the real FailureCache: for every admissible (initial,max) configuration at nanosecond resolution and every 32-bit streak the solver proves min<=backoff<=max, backoff(1)=min, at most doubling, monotone; NewFailureCache admits exactly the documented range; one record() from an arbitrary stored state (absent / same key / colliding different key, any streak, any clock) is idempotent while active, advances the streak by at most one, resets after a long idle, and always waits within [min,max].",
+  "Trusted: engine, solver, time model (instants as int64 ns); the bounded table behind the cache is a one-cell map model here (its own behaviour is C16).", "DESIGN.md §5 C13")
+CLAIMED["C14"] = ("Differential check of sdns's streaming KeyTag (incl. the RSAMD5 derivation) against the DNS library's DNSKEY.KeyTag with both executed symbolically on the same key: real encoding/base64 decoder, symbolic window over all 256 byte values (valid alphabet, padding, CR/LF, garbage) at short-key positions and straddling the 256-character chunk boundary, all flags/protocol/algorithm values; equal tags wherever the library does not panic, and no panic on sdns's side.",
+  "Trusted: engine, solver. Signature mathematics, DS digest and canonical form are outside this check until their harnesses are built.", "DESIGN.md §5 C14")
+CLAIMED["C19"] = ("Policy.Clamp, Policy.ClampScope and Build executed symbolically over every policy byte, option family/netmask/scope and address (4/16 bytes, mismatches included): forwarded netmask <= ceiling and <= client's, all host bits zero, network bits unchanged, SCOPE 0, family kept, fresh storage; cache scope = min(authority scope, forwarded source, floor) with the address truncated; any out-of-range setting yields no policy at all.",
+  "Trusted: engine, solver, net/netip executed as real code. Option stripping in SetEdns0 and the shared-denial bypass are separate harnesses (added as built).", "DESIGN.md §5 C19")
 NA_REASON = "no check registered yet: the solver-based harness for this property is still being built in this session (see DESIGN.md §5 for the plan)"
 def main():
     props = [json.loads(l) for l in open(os.path.join(ROOT, "properties.jsonl"))]
